@@ -25,7 +25,7 @@ PYCORR = {
     "C14": ["normalize_bcast_dims", "get_bcasted_dims"],
     "C04": ["separator"], "C08": ["separator", "tensorpacker"], "C07": ["tensorpacker"],
     "C09": ["uniquifier", "purefunction", "editable_module"], "C10": ["uniquifier", "purefunction", "editable_module"],
-    "C18": ["set_default_option", "get_and_pop_keys", "get_method", "solve_prelude", "symeig_prelude"],
+    "C18": ["set_default_option", "get_and_pop_keys", "get_method", "solve_prelude", "symeig_prelude", "equilibrium_prelude", "minimize_prelude"],
     "C20": ["packer_unique_idxs"],
 }
 
